@@ -65,13 +65,41 @@ def check(case):
         solver = make_tracing_solver(problem, params)
     except Exception as e:
         return excluded(f"build:{type(e).__name__}", labels)
+    from pygradflow.callbacks import CallbackType
+
     out = run_solve(problem, params, x0, y0, solver=solver)
+    first = _judge(case, spec, solver, out, labels, collect, "first solve", None)
+    if first["status"] == "violation" or out.exc is not None:
+        return first
+    # second solve on the same Solver with one more observer registered in between: every registered
+    # observer must be told about every step computation, and the whole story must be consistent again
+    late = []
+    solver.callbacks.register(CallbackType.ComputedStep, lambda it, nit, acc: late.append((it, nit, bool(acc))))
+    out2 = run_solve(problem, params, x0, y0, solver=solver)
+    second = _judge(case, spec, solver, out2, labels, collect, "second solve on the same Solver", late)
+    if second["status"] == "violation":
+        return second
+    first["sub"] = first.get("sub", 0) + second.get("sub", 0)
+    first["labels"] = first["labels"] + ["resolved_with_late_observer"]
+    return first
+
+
+def _judge(case, spec, solver, out, labels0, collect, which, late):
+    labels = list(labels0)
     trials, cbs = out.trials, out.cb
     T = len(trials)
     pen = case["params"].get("penalty_update")
 
     def V(clause, msg):
-        return violation(f"{clause}", msg, labels, sub=T)
+        tag = "" if which == "first solve" else "|resolve"
+        return violation(f"{clause}{tag}", f"[{which}] {msg}", labels, sub=T)
+
+    if late is not None and out.exc is None:
+        if len(late) != T:
+            return V("late-observer-not-notified", f"an observer registered between two solves received {len(late)} announcements for {T} step computations")
+        for k, (it, nit, acc) in enumerate(late):
+            if it is not trials[k].it_in or nit is not trials[k].it_out or acc != trials[k].accepted:
+                return V("late-observer-content", f"announcement #{k} to the late observer does not match step computation #{k}")
 
     # callbacks announce exactly the computed steps (also for runs ending in an exception,
     # except for the trial that raised / the trial whose lambda triggered the abort)
